@@ -10,6 +10,8 @@ package main
 import (
 	"fmt"
 	"go/ast"
+	"os"
+	"path/filepath"
 	"sort"
 	"strings"
 )
@@ -186,6 +188,62 @@ func c08UnguardedInterpolate(files []string) []string {
 	return out
 }
 
+// c08SkipInterpolationUses lists every read or write of a `SkipInterpolation` field in the (non-test, non-hook) files of
+// the given packages, with the innermost enclosing call / composite-literal entry / if-condition / assignment: where the
+// flag enters the pipeline (round 6: `Props/C08Whole.load_eq_loadG` says "at the interpolation stage and at Canonical").
+func c08SkipInterpolationUses(dirs []string) []string {
+	var out []string
+	for _, dir := range dirs {
+		ents, _ := os.ReadDir(filepath.Join(repo, dir))
+		for _, e := range ents {
+			n := e.Name()
+			if !strings.HasSuffix(n, ".go") || strings.HasSuffix(n, "_test.go") || strings.HasPrefix(n, "verif_") {
+				continue
+			}
+			rel := dir + "/" + n
+			f := parse(rel)
+			for _, d := range f.Decls {
+				fd, ok := d.(*ast.FuncDecl)
+				if !ok || fd.Body == nil {
+					continue
+				}
+				var stack []ast.Node
+				ast.Inspect(fd.Body, func(m ast.Node) bool {
+					if m == nil {
+						stack = stack[:len(stack)-1]
+						return true
+					}
+					stack = append(stack, m)
+					se, ok := m.(*ast.SelectorExpr)
+					if !ok || se.Sel.Name != "SkipInterpolation" {
+						return true
+					}
+					ctx := src(se)
+					for i := len(stack) - 2; i >= 0; i-- {
+						switch x := stack[i].(type) {
+						case *ast.CallExpr:
+							ctx = src(x)
+						case *ast.KeyValueExpr:
+							ctx = src(x)
+						case *ast.AssignStmt:
+							ctx = src(x)
+						case *ast.IfStmt:
+							ctx = "if " + src(x.Cond)
+						default:
+							continue
+						}
+						break
+					}
+					out = append(out, rel+":"+fd.Name.Name+": "+ctx)
+					return true
+				})
+			}
+		}
+	}
+	sort.Strings(out)
+	return out
+}
+
 func c08GenFacts() (string, string) {
 	var b strings.Builder
 	b.WriteString(header + "namespace CV.Gen\n\n")
@@ -224,6 +282,7 @@ func c08GenFacts() (string, string) {
 	fmt.Fprintf(&b, "/-- every `interp.Options{…}` literal of the loader: `file:func: Field=source, …` -/\ndef c08_optionLiterals : List String := [%s]\n", joinLean(lits))
 	fmt.Fprintf(&b, "/-- every condition guarding a call of `interp.Interpolate` in the loader: `file:func: cond` -/\ndef c08_interpolateGuards : List String := [%s]\n", joinLean(guards))
 	fmt.Fprintf(&b, "/-- calls of `interp.Interpolate` in the loader outside every `!opts.SkipInterpolation` guard -/\ndef c08_unguardedInterpolate : List String := [%s]\n", joinLean(c08UnguardedInterpolate(loaderFiles)))
+	fmt.Fprintf(&b, "/-- every use of a `SkipInterpolation` field in loader/ and cli/: `file:func: innermost enclosing call / literal entry / condition` -/\ndef c08_skipInterpolationUses : List String := [%s]\n", joinLean(c08SkipInterpolationUses([]string{"cli", "loader"})))
 	// printed bodies (without comments) of the functions the C08 models were written against
 	ipl := parse("interpolation/interpolation.go")
 	ms := parse("loader/mapstructure.go")
